@@ -166,6 +166,37 @@ pub fn pinned_instances(ctx: &Ctx, zoo: &[SE], rng: &mut rand_chacha::ChaCha20Rn
     out
 }
 
+/// The third synthesis mode (`Prove { construct_matrices: false }`, the witness-generation pass of provers that
+/// keep the matrices from setup): the same variables in the same order with the same values, and the same
+/// number of constraints, as the ordinary proving-mode synthesis. Ok(None) = both syntheses refused alike.
+fn witness_only_agrees(synth: &dyn Fn(&CS) -> Result<(), String>) -> Result<Option<()>, String> {
+    let full = new_cs(false);
+    // a gadget may refuse an input (error, or a panic inside arkworks when a value is read): a refusal in both
+    // modes is agreement
+    let r1 = guarded(|| synth(&full)).unwrap_or_else(|p| Err(format!("panic: {}", p.lines().next().unwrap_or(""))));
+    let wo = new_cs(false);
+    wo.set_mode(ark_relations::r1cs::SynthesisMode::Prove { construct_matrices: false });
+    let r2 = guarded(|| synth(&wo)).unwrap_or_else(|p| Err(format!("panic: {}", p.lines().next().unwrap_or(""))));
+    match (r1, r2) {
+        (Err(_), Err(_)) => Ok(None),
+        (Ok(()), Err(e)) => Err(format!("witness-only synthesis fails ({e}) where proving-mode synthesis succeeds")),
+        (Err(e), Ok(())) => Err(format!("proving-mode synthesis fails ({e}) where witness-only synthesis succeeds")),
+        (Ok(()), Ok(())) => {
+            let (a, b2) = (full.borrow().unwrap(), wo.borrow().unwrap());
+            if (a.num_instance_variables, a.num_witness_variables, a.num_constraints) != (b2.num_instance_variables, b2.num_witness_variables, b2.num_constraints) {
+                return Err(format!("(instance, witness, constraints) = ({}, {}, {}) in proving mode but ({}, {}, {}) in witness-only mode", a.num_instance_variables, a.num_witness_variables, a.num_constraints, b2.num_instance_variables, b2.num_witness_variables, b2.num_constraints));
+            }
+            if a.instance_assignment != b2.instance_assignment {
+                return Err("instance assignments differ between proving mode and witness-only mode".into());
+            }
+            if let Some(k) = (0..a.witness_assignment.len()).find(|&k| a.witness_assignment[k] != b2.witness_assignment[k]) {
+                return Err(format!("witness variable {k} differs between proving mode and witness-only mode"));
+            }
+            Ok(Some(()))
+        }
+    }
+}
+
 fn shape_of_pinned(pc: &Pinned, setup: bool) -> Result<Shape, String> {
     let cs = new_cs(setup);
     pc.clone().generate_constraints(cs.clone()).map_err(|e| format!("{e:?}"))?;
@@ -262,6 +293,17 @@ pub fn run(ctx: &Ctx, rec: &mut Rec) {
                         }
                     }
                 }
+                // witness-only synthesis mode against proving mode
+                {
+                    let inp2 = inp.clone();
+                    rec.eval(&(g.name, format!("{:?}", inp_json(inp)), 2u8), false);
+                    match guarded(|| witness_only_agrees(&|cs: &CS| (g.run)(cs, &inp2).map(|_| ()).map_err(|e| format!("{e:?}")))) {
+                        Ok(Ok(Some(()))) => rec.count("witness_only_mode_comparisons", 1),
+                        Ok(Ok(None)) => {}
+                        Ok(Err(why)) => rec.violation(format!("{P}:{name}:witness-only-mode-differs"), format!("{} on `{class}`: {why}", g.name), inp_json(inp)),
+                        Err(pn) => rec.violation(format!("{P}:{name}:witness-only-mode-differs"), format!("{} on `{class}`: panic {pn}", g.name), inp_json(inp)),
+                    }
+                }
                 // blank setup: the circuit synthesised with every witness value missing (the way key generation
                 // is usually run). The gadgets may refuse (AssignmentMissing: counted); if a system is
                 // produced it must be the very same system as in proving mode.
@@ -293,8 +335,10 @@ pub fn run(ctx: &Ctx, rec: &mut Rec) {
 
     // ---- (2) public-input allocation: exactly one instance variable = compress_to_field(E)
     rec.declare_form("public input: instance assignment");
+    let sparse: Vec<SE> = crate::zoo::sparse_encoding_elements(&ctx.c).iter().map(|m| present(&ctx.c, m, None)).collect();
+    rec.count("public inputs with a sparse encoding", sparse.len() as u64);
     par(rec, |w, n, rec| {
-        for (i, e) in zoo.iter().enumerate() {
+        for (i, e) in zoo.iter().chain(sparse.iter()).enumerate() {
             if i % n != w {
                 continue;
             }
@@ -366,6 +410,16 @@ pub fn run(ctx: &Ctx, rec: &mut Rec) {
                         Ok(Err(e)) => rec.violation(format!("{P}:{form}:synthesis-error"), format!("circuit {nm} on `{class}`: {e}"), json!({})),
                         Err(pn) => rec.violation(format!("{P}:{form}:panic"), format!("circuit {nm} on `{class}`: {pn}"), json!({})),
                     }
+                }
+            }
+            for (pc, class) in &mine {
+                let pc2 = (*pc).clone();
+                rec.eval(&("pinned-witness-only", nm, class.clone()), false);
+                match guarded(|| witness_only_agrees(&|cs: &CS| pc2.clone().generate_constraints(cs.clone()).map_err(|e| format!("{e:?}")))) {
+                    Ok(Ok(Some(()))) => rec.count("witness_only_mode_comparisons", 1),
+                    Ok(Ok(None)) => {}
+                    Ok(Err(why)) => rec.violation(format!("{P}:{form}:witness-only-mode-differs"), format!("circuit {nm} on `{class}`: {why}"), json!({})),
+                    Err(pn) => rec.violation(format!("{P}:{form}:witness-only-mode-differs"), format!("circuit {nm} on `{class}`: panic {pn}"), json!({})),
                 }
             }
             // the crate's own counting helper (CountConstraints) must report the same system
